@@ -1693,8 +1693,8 @@ def r17(ctx):
 
 def r18(ctx):
     repo = ctx.repo
-    ctx.rule("C08.R18", "a write path converts only its own level: encode / serialize never deep-converts or deep-copies "
-                        "the value (dataclasses.asdict, copy.deepcopy) - nested values belong to the child specs, and a "
+    ctx.rule("C08.R18", "a write path converts only its own level: encode / serialize never deep-converts the value "
+                        "(dataclasses.asdict / astuple) - nested values belong to the child specs, and a "
                         "deep conversion rebuilds lazily decoded (proxied) containers into unusable objects")
     n = 0
     for ci in _spec_classes(repo):
@@ -1704,12 +1704,12 @@ def r18(ctx):
                 continue
             n += 1
             deep = [c for c in walk(m.node, into_defs=True) if isinstance(c, ast.Call)
-                    and (ap(c.func) or "").split(".")[-1] in ("asdict", "astuple", "deepcopy")]
+                    and (ap(c.func) or "").split(".")[-1] in ("asdict", "astuple")]
             ctx.ob("C08.R18", f"{_label(ci)}.{name}: no deep conversion / copy of the value being written", not deep,
                    ctx.w(m, deep[0]) if deep else m.where,
                    "; ".join(norm(c) for c in deep) + ": list / dict fields that are lazy proxies come out as "
                    "Proxy(<generator>) and the value the reader returned can no longer be written")
-    ctx.floor("C08.R18", "encode / serialize methods", n, 60)
+    ctx.floor("C08.R18", "encode / serialize methods", n, 45)
 
 
 def r19(ctx):
@@ -1731,7 +1731,7 @@ def r19(ctx):
             ctx.ob("C08.R19", f"{_label(ci)}.__init__: argument {prm.arg} reaches the object", bool(real) or not loads and
                    prm.arg.startswith("_"), ctx.w(init, prm),
                    f"{prm.arg} is only ever compared with None" if loads else f"{prm.arg} is never read")
-    ctx.floor("C08.R19", "constructor arguments", n, 60)
+    ctx.floor("C08.R19", "constructor arguments", n, 45)
 
 
 def _has_integrality_test(e) -> bool:
@@ -1762,7 +1762,16 @@ def r20(ctx):
                 if not half or not any(isinstance(x, ast.BinOp) and isinstance(x.op, ast.Mult) for x in ast.walk(st.value)):
                     continue
                 n += 1
-                ok = any(_has_integrality_test(e) for e, pol in facts(st.node, m.node))
+                def integral(e, m=m):
+                    if _has_integrality_test(e):
+                        return True
+                    names = {x.id for x in ast.walk(e) if isinstance(x, ast.Name)} - set(_params(m)) - {"self", "cls"}
+                    for nm in names:          # a local that is computed once and holds the answer
+                        vals = [s2.value for s2 in stores(m.node, into_defs=False) if s2.path == nm]
+                        if len(vals) == 1 and vals[0] is not None and _has_integrality_test(vals[0]):
+                            return True
+                    return False
+                ok = any(integral(e) for e, pol in facts(st.node, m.node))
                 ctx.ob("C08.R20", f"{ci.name}.{m.name}: half-step nudge {st.path} only when the position is not on a code",
                        ok, ctx.w(m, st.node), "the nudge turns an exact code k into k + 0.5 and round() picks the even "
                                               "neighbour: decode(k) == 0.0 but encode(0.0) == k + 1")
